@@ -19,6 +19,13 @@ import (
 	"github.com/keep-network/keep-core/pkg/tecdsa"
 )
 
+// The property's own numbers (deliberately not the constants of heartbeat.go):
+// a heartbeat needs 70 active members, a claim needs a run of three.
+const (
+	c36MinActive    = 70
+	c36RunThreshold = 3
+)
+
 // Outcome kinds of one heartbeat.
 const (
 	c36Success    = "ok"       // signed, >= 70 active members
@@ -151,25 +158,25 @@ func c36GenSequence(rng *rand.Rand) (wallets int, steps []c36Step) {
 			st.Kind = c36Low
 			switch rng.Intn(4) {
 			case 0:
-				st.Active = heartbeatSigningMinimumActiveMembers - 1
+				st.Active = c36MinActive - 1
 			case 1:
 				st.Active = 51 + rng.Intn(18)
 			default:
-				st.Active = rng.Intn(heartbeatSigningMinimumActiveMembers)
+				st.Active = rng.Intn(c36MinActive)
 			}
 			st.ClaimFail = rng.Intn(6) == 0
 			st.Short = rng.Intn(5) == 0
 		case x < pLow+4:
 			st.Kind = c36LowEmpty
-			st.Active = rng.Intn(heartbeatSigningMinimumActiveMembers)
+			st.Active = rng.Intn(c36MinActive)
 		default:
 			switch y := rng.Intn(100); {
 			case y < 40:
 				st.Kind = c36Success
 				if rng.Intn(2) == 0 {
-					st.Active = heartbeatSigningMinimumActiveMembers
+					st.Active = c36MinActive
 				} else {
-					st.Active = heartbeatSigningMinimumActiveMembers + rng.Intn(31)
+					st.Active = c36MinActive + rng.Intn(31)
 				}
 			case y < 58:
 				st.Kind = c36SignErr
@@ -319,7 +326,7 @@ func TestVerif_C36_Heartbeat(t *testing.T) {
 				run[st.Wallet]++
 				lowSeen++
 			}
-			expectClaim := st.Kind == c36Low && run[st.Wallet] >= heartbeatConsecutiveFailureThreshold &&
+			expectClaim := st.Kind == c36Low && run[st.Wallet] >= c36RunThreshold &&
 				len(st.inactive) > 0
 
 			wit := map[string]interface{}{
